@@ -28,7 +28,7 @@ func (s *c09Scope) lookup(n string) (string, bool) {
 	return "", false
 }
 
-var c09Kinds = []string{"for", "fn", "partial", "cf", "cfd", "bw", "blk", "if", "forit", "formap", "cf2", "pvar2", "cfar"}
+var c09Kinds = []string{"for", "fn", "partial", "cf", "cfd", "bw", "blk", "if", "forit", "formap", "bwc", "cf2", "pvar2", "cfar"}
 
 type c09Level struct {
 	kind   int
@@ -143,6 +143,10 @@ func (g *c09Gen) construct(l int, parent *c09Scope) (src, exp string) {
 	case "bw":
 		bs, be := g.body(l, child)
 		return `<%= bwith() { %>` + bs + `<% } %>`, be
+	case "bwc":
+		// a helper that builds the scope for its block by wrapping its own context as a Go context
+		bs, be := g.body(l, child)
+		return `<%= bwctx() { %>` + bs + `<% } %>`, be
 	case "blk":
 		bs, be := g.body(l, parent) // Block(): same scope
 		return `<%= blk() { %>` + bs + `<% } %>`, "{" + be + "}"
@@ -213,6 +217,10 @@ func c09Context(partials map[string]string) *plush.Context {
 		s, err := help.BlockWith(help.New())
 		return template.HTML(s), err
 	})
+	c.Set("bwctx", func(help plush.HelperContext) (template.HTML, error) {
+		s, err := help.BlockWith(plush.NewContextWithContext(help.Context))
+		return template.HTML(s), err
+	})
 	c.Set("partialFeeder", func(name string) (string, error) {
 		if s, ok := partials[name]; ok {
 			return s, nil
@@ -235,7 +243,7 @@ func init() {
 			return s
 		},
 		Run:  c09Run,
-		Rule: "nestings of {for over a slice / an Iterator / a map, user-function call, partial with data, contentFor+contentOf with data, contentOf default block with data, block helper using BlockWith(child), block helper using Block(), if, contentFor defined at top level and used at the inner level, one contentFor block used twice (with and without data), one data map held in a variable and passed to two partial calls}; at each level every subset of {let fresh_l, shadowing let o, assignment o = …}; every name (o, fresh names, loop variables, parameters, data names of every level) is probed at the end of each body, after each construct closes and at the end of the template; compared with an environment-chain reference model (let/assign bind in the current scope, lookup outward; for/call/partial/contentOf/BlockWith open a scope, if and Block() do not; a far contentFor block runs in a child of its definition scope). (repeat) every scope-opening construct entered twice or more from the same place (a function called from two tags / from every loop iteration / recursively, a partial and a contentOf rendered twice, a partial that renders its own text recursively with the cache off and on, a loop run twice, BlockWith twice): the body reads a name BEFORE its own let of that name, or lets it on one path only - every entry must see the outer value (or nothing), never what an earlier entry (of this or another function) bound; one partial / contentOf call site evaluated in different scopes (function called twice, inner loop re-entered, stored block used with different data); names carried by a wrapped Go context (NewContextWithContext) read in every scope; an outer variable / context value named like a built-in helper read two and three scopes down (function in function, loop in function, partial in partial); a name bound to nil inside (loop variable, parameter, let, partial / contentOf data) hides the same-named outer variable. (deep) a contentFor block defined 0..9 scopes deep (for loops / BlockWith children / function bodies) and rendered with data 0..4 scopes further in: block data and block lets are gone after the call, every variable of the calling scopes is still readable; a name bound at level j of D nested scopes (D = 1..24, 31..33, 40, 64, 65, 100; every j up to 24, boundary j beyond) read from the innermost scope together with the first, middle and last level's own variables; a function calling itself D deep below a shadowing parameter, a loop variable, a let in a middle frame. Non-trivial: depth >= 2 with at least one binding action.",
+		Rule: "nestings of {for over a slice / an Iterator / a map, user-function call, partial with data, contentFor+contentOf with data, contentOf default block with data, block helper using BlockWith(child), block helper using BlockWith(NewContextWithContext(its own context)), block helper using Block(), if, contentFor defined at top level and used at the inner level, one contentFor block used twice (with and without data), one data map held in a variable and passed to two partial calls}; at each level every subset of {let fresh_l, shadowing let o, assignment o = …}; every name (o, fresh names, loop variables, parameters, data names of every level) is probed at the end of each body, after each construct closes and at the end of the template; compared with an environment-chain reference model (let/assign bind in the current scope, lookup outward; for/call/partial/contentOf/BlockWith open a scope, if and Block() do not; a far contentFor block runs in a child of its definition scope). (repeat) every scope-opening construct entered twice or more from the same place (a function called from two tags / from every loop iteration / recursively, a partial and a contentOf rendered twice, a partial that renders its own text recursively with the cache off and on, a loop run twice, BlockWith twice): the body reads a name BEFORE its own let of that name, or lets it on one path only - every entry must see the outer value (or nothing), never what an earlier entry (of this or another function) bound; one partial / contentOf call site evaluated in different scopes (function called twice, inner loop re-entered, stored block used with different data); names carried by a wrapped Go context (NewContextWithContext) read in every scope; an outer variable / context value named like a built-in helper read two and three scopes down (function in function, loop in function, partial in partial); a name bound to nil inside (loop variable, parameter, let, partial / contentOf data) hides the same-named outer variable. (deep) a contentFor block defined 0..9 scopes deep (for loops / BlockWith children / function bodies) and rendered with data 0..4 scopes further in: block data and block lets are gone after the call, every variable of the calling scopes is still readable; a name bound at level j of D nested scopes (D = 1..24, 31..33, 40, 64, 65, 100; every j up to 24, boundary j beyond) read from the innermost scope together with the first, middle and last level's own variables; a function calling itself D deep below a shadowing parameter, a loop variable, a let in a middle frame. Non-trivial: depth >= 2 with at least one binding action.",
 		Bound: func(th bool) string {
 			if th {
 				return "depth <=3, all 8 action subsets per level"
